@@ -149,6 +149,20 @@ PROPS = {
         real_vs_stub=L_REAL,
         assumptions=SIM_ASSUME,
     ),
+    "C08": dict(
+        pkg="internal/repository", test="TestVerifC08", level="exploration", quick_s=45, thorough_s=600,
+        text="histories of 3-9 steps that add index files (1-3 packs x 1-4 blobs, blobs recurring in other packs, exact duplicate entries in several "
+             "files), supersede two files by their union, delete files, and run incremental loads into one long-lived MasterIndex with 1-6 "
+             "connections and 1-8 virtual cores, the completion order of the parallel file loads decided by the seeded scheduler; in a quarter of the "
+             "loads an index file disappears while the load is in progress; after every successful load the lookups of every blob ever mentioned "
+             "equal the model multimap of the index files in the store (before or after the disappearance) and equal a fresh load; a failed load "
+             "is accepted only when a file disappeared",
+        note="encode/decode fidelity at 32-bit limits is input-driven and not part of this check",
+        design_ref="3 / C08",
+        rule="one run = generated history x connections/cores x seeded schedule; distinct = distinct event-log hash among runs with a real scheduling choice or fired fault",
+        real_vs_stub="real: MasterIndex (Load, incremental load, MergeFinalIndexes), index.Index, Repository.LoadIndex/LoadUnpacked, crypto; simulated: object store",
+        assumptions=SIM_ASSUME,
+    ),
     "C10": dict(
         pkg="cmd/restic", test="TestVerifC10", level="exploration", quick_s=60, thorough_s=900,
         text="histories of 2-5 backups of changing trees, a third of them crashed at a tape-chosen mutation (leaving unreferenced packs), optional "
